@@ -185,6 +185,13 @@ func checkC03(w *World, r *Report) {
 	checkSupplyGuard(w, r, tm, tree, false)
 	// the clearing price that was computed is the one the auction record keeps (it is what users and queries see)
 	r.Sub(checkC16, "PUB-PRICE")
+	// a bidder's demand at a price is floor(amount/price): rounded otherwise, a qualifying price is rejected (or a
+	// non-qualifying one taken)
+	r.SubWhere(checkC04, func(_, c string) bool {
+		return strings.Contains(c, ":quantity") && !strings.Contains(c, "ConvertToSellingAmount")
+	}, "RD-DIR")
+	// the cap that limits a bidder's demand is found by the bidder string: the allow-list entry and the bid spell it alike
+	checkAddrCanon(w, r, tm)
 	// the allowances that cap the demand are those of the auction being settled
 	r.SubWhere(checkC19, keepAny(":AllowedBidder:", ":Bid:"), "PREFIX-RANGE")
 }
